@@ -200,12 +200,15 @@ func scenRoundTrip(r *Run, job *Job, prop string) {
 	// a caller that reads a large answer slowly (64 KiB receive buffer, a pause after the first 100 000 bytes) while
 	// the next caller is already being served
 	slowAt := -1
-	if prop == "C01" && nInv >= 2 && t.Chance(1, 6) {
+	if nInv >= 2 && t.Chance(1, 6) {
 		slowAt = t.Draw(nInv - 1)
 		for _, k := range []int{slowAt, slowAt + 1} {
 			if plans[k].mode == "ok" || plans[k].mode == "oversize" {
 				plans[k].mode = "ok"
 				plans[k].respSize = 700000 + t.Draw(600000)
+				if prop == "C14" {
+					plans[k].respSize = MaxPayload - t.Draw(3) // in every position: also right behind another maximum-size answer
+				}
 				plans[k].resp = genBytes(rng, 0, plans[k].respSize, fmt.Sprintf("resp%d", k+1))
 			}
 		}
@@ -221,6 +224,24 @@ func scenRoundTrip(r *Run, job *Job, prop string) {
 	}
 	r.Desc = fmt.Sprintf("%s T=%ds fn=%q exts=%v init=%v slow=%d plan=%v", prop, timeoutSec, fn, exts, initStall, slowAt, desc)
 	r.Logf("%s", r.Desc)
+	if prop == "C01" && initStall > 0 && t.Chance(1, 2) {
+		// while the first invocation waits for the runtime to initialise, somebody else posts an event (and is refused):
+		// the event of the waiting invocation must not be affected
+		fired := false
+		e.Extra = func() []action {
+			if fired || len(w.Invokes) == 0 || w.Invokes[0].Dispatched || !w.Invokes[0].Call.Pending() {
+				return nil
+			}
+			return []action{{"refused-caller", func() {
+				fired = true
+				r.NextStep()
+				r.Fault("refused-caller-during-init")
+				c := r.Dial(FrontAddr).Start("intruder", "POST", InvokePath, nil, genBytes(rng, 1, len(plans[0].payload), "intruder"))
+				r.Settle()
+				_ = c
+			}}}
+		}
+	}
 	e.Stuck = func() { r.Failf(prop+".hang", "plan did not finish within the bound") }
 	e.Run()
 	judgeRoundTrip(r, w, e, prop, plans, fn)
